@@ -13,33 +13,44 @@ from harness.common import Ck, coq_list, parse_coq_N_list
 from translate import c05_sites
 
 MANIFEST = dict(
-    technique='Rocq proof (Flocq binary64 model of Python float % 360.0: range + identity-on-range theorems over all finite doubles; exact dyadic '
-              'model of format_float: shape/value/error theorems and the exact "-0" carve-out; model of parse_vec_str with the round-trip theorem '
-              'parse(format) within 5e-7 for every bracket/whitespace wrapping; frame + heap/alias theorems for frozen values and copies) + '
-              'fail-closed ast census of math.py (store sites, angle creations, format/parse pipelines, mutation events, result kinds of every '
-              'public method) + vm_compute correspondences (bit-exact / string-exact / parse results / frames / result aliasing) + history search',
+    technique='Rocq proof (Flocq binary64 model of Python float % 360.0: range, identity-on-range and exact-subtraction-on-[360,720) theorems '
+              'over all finite doubles; exact dyadic model of format_float: shape/value/error theorems and the exact "-0" carve-out; model of '
+              'parse_vec_str with the round-trip theorem parse(format) within 5e-7 for every bracket/whitespace wrapping; the composed chain '
+              'str -> parse_vec_str -> float() -> % 360 % 360 for whole angles and vectors; frame + heap/alias theorems for frozen values and '
+              'copies; slot-transfer model for the VALUE of a copy) + fail-closed, semantically normalising ast census of math.py (store '
+              'sites, angle creations, format/parse pipelines by return-path enumeration, mutation events, result kinds of every public '
+              'method, symbolic run of every copy-like method) + vm_compute correspondences (bit-exact / string-exact / parse results / '
+              'frames / result aliasing / copied slots bit for bit) + history search',
     text='Theorems in Props/C05.v. (a) For EVERY finite binary64 x the executable Flocq model of x % 360.0 % 360.0 is finite and in [0,360) (a '
-         'single % reaches exactly 360.0, witness -1e-14) and is the identity on [0,360); hence, if every store to _pitch/_yaw/_roll is a double '
-         'modulo, a copy of an angle slot or 0.0, all angle slots stay in [0,360) after every history of stores with finite operands. The census '
-         'also lists every expression that creates an Angle (constructor / __new__ handed to _to_angle / __new__ with all three slots stored on '
-         'every path), none unclassified. (b) Frame theorem: with a mutation census in which no method reachable with a frozen receiver writes '
-         'its receiver, an argument or a copy() of either, frozen objects never change and non-receivers are never written. Copy theorem on a '
-         'heap with aliasing: for a result-kind table in which copy/__copy__/__deepcopy__/__reduce__/freeze/thaw return a NEW object or (frozen '
-         'classes only) the receiver, and a census in which they write nothing, operating on the copy never changes the source and vice versa, '
-         'for every later history. (c) format_float on every dyadic: text is -?digits(.1-6 digits), no trailing zero, no exponent; "-0" is '
-         'printed IF AND ONLY IF the input is in the carved-out class (no repair in the source, negative, non-zero, |x|*1e6 <= 1/2); value = '
-         'round-half-even(|x|*1e6)/1e6, within 5e-7 of x. parse_vec_str as read from the source (strip, bracket sets, split, float) applied to '
-         'three formatted numbers in any documented bracket style with any whitespace returns three decimals each within 5e-7 of its component '
-         '(exact integer statement, carved-out "-0" included); with float() modelled as correctly rounded the double read back is within 5e-7 + '
-         'ulp/2. All generated premises are kernel-checked instance obligations on every run.',
+         'single % reaches exactly 360.0, witness -1e-14), is the identity on [0,360) and subtracts exactly 360 on [360,720); hence, if every '
+         'store to _pitch/_yaw/_roll is a double modulo, a copy of an angle slot or 0.0, all angle slots stay in [0,360) after every history '
+         'of stores with finite operands. The census also lists every expression that creates an Angle (constructor / __new__ handed to '
+         '_to_angle / __new__ with all three slots stored on every path), none unclassified. (b) Frame theorem: with a mutation census in '
+         'which no method reachable with a frozen receiver writes its receiver, an argument or a copy() of either, frozen objects never '
+         'change and non-receivers are never written. Copy theorem on a heap with aliasing: for a result-kind table in which '
+         'copy/__copy__/__deepcopy__/__reduce__/freeze/thaw return a NEW object or (frozen classes only) the receiver, and a census in which '
+         'they write nothing, operating on the copy never changes the source and vice versa, for every later history. Value of a copy: for '
+         'the slot-transfer table obtained by running each copy-like method symbolically, the result has the promised class, every slot of '
+         'a new vector/matrix is exactly the source slot, and every slot of a new angle built from a source in range has the same real '
+         'value and is in range (the constructor normalisation is the identity there). (c) format_float on every dyadic: text is '
+         '-?digits(.1-6 digits), no trailing zero, no exponent; "-0" is printed IF AND ONLY IF the input is in the carved-out class (no '
+         'repair in the source, negative, non-zero, |x|*1e6 <= 1/2); value = round-half-even(|x|*1e6)/1e6, within 5e-7 of x. parse_vec_str '
+         'as read from the source (strip, bracket sets, split, float) applied to three formatted numbers in any documented bracket style '
+         'with any whitespace returns three decimals each within 5e-7 of its component (exact integer statement, carved-out "-0" '
+         'included); with float() modelled as correctly rounded the double read back is within 5e-7 + ulp/2. (a)+(c) composed: '
+         'from_str(str(angle)) for an angle whose slots are in range stores slots that are again in [0,360) and within 5e-7 + ulp/2 of the '
+         'printed ones modulo 360 (359.9999997 -> "360" -> 360.0 -> 0.0 is the wrap-around branch); from_str(str(vec)) is within 5e-7 + '
+         'ulp/2 per component. All generated premises are kernel-checked instance obligations on every run.',
     note='Trusted: Coq kernel + vm_compute, Flocq, translate/c05_sites.py, the hand models Num/Mod360.v, Num/Dec6.v, Num/VecText.v (tied by '
-         'bit-exact / string-exact / parse-result differential runs; str.isspace() table compared on all 1114112 code points). Axioms: the four '
-         'classical real-number axioms of Coq Reals (through Flocq) for the % 360 theorems and the float() corollary only; frame, copy, format '
-         'and parse theorems are axiom-free. Assumptions: operands of the modulo are finite; printf("%.6f") and float() are correctly rounded '
-         '(float() enters as the definition py_float = round-to-nearest-even); only plain-decimal fields are predicted by the parse model (other '
-         'spellings accepted by float() - exponents, inf, underscores - get no prediction); only the public API is used. Not modelled: float '
-         'VALUES of rotations (sin/cos/atan2), equality of a copy with its source (searched), __format__ with a user spec, the Cython twin. '
-         'Known finding kept: format_float prints "-0" on the carved-out class (suite pins it); a "-0" outside that class has its own key.',
+         'bit-exact / string-exact / parse-result differential runs; str.isspace() table compared on all 1114112 code points), '
+         'SM/FrozenCopyValue.v (tied bit for bit on executed copies). Axioms: the four classical real-number axioms of Coq Reals (through '
+         'Flocq) for the % 360 theorems, the float() corollaries and the composed round-trip theorems only; frame, copy, format and parse '
+         'theorems are axiom-free. Assumptions: operands of the modulo are finite; printf("%.6f") and float() are correctly rounded '
+         '(float() enters as the definition py_float = round-to-nearest-even; the composed theorems quantify over the finite double whose '
+         'value is py_float of the decoded field); only plain-decimal fields are predicted by the parse model (other spellings accepted by '
+         'float() - exponents, inf, underscores - get no prediction); only the public API is used. Not modelled: float VALUES of rotations '
+         '(sin/cos/atan2; only finiteness assumed), __format__ with a user spec, hash/eq consistency, the Cython twin. Known finding kept: '
+         'format_float prints "-0" on the carved-out class (suite pins it); a "-0" outside that class has its own key.',
 )
 
 IMPORTS = ['Coq.ZArith.ZArith', 'Coq.NArith.NArith', 'Coq.Lists.List', 'Coq.Strings.String', 'SV.Num.Mod360', 'SV.Num.AngleSites',
@@ -165,6 +176,7 @@ def corr_mod(ck: Ck) -> None:
 
 # ------------------------------------------------------------------------------------------------ format_float
 FMT_SPECIAL = [-1e-9, -0.0, 0.0, -4.9e-7, -5e-7, -5.000001e-7, 5e-7, 0.5, 1.5e-6, 2.5e-6, 0.0078125, 0.0234375, 359.9999995, 359.99999949,
+               359.9999997, 359.99999999999994, 719.9999999,
                1e16, 123456789012345680.0, 1e22, -1e22, 0.1, 0.3, 1 / 3, 2 / 3, 100.0, -100.0, 1e-7, -1e-7, 0.000001, 0.0000015,
                1.0000005, -1.0000005, 1.9999995, 9.9999995, 0.9999995, 99999.9999995, 5e-324, -5e-324, 1e300, 128.0, 1e-300]
 
@@ -379,6 +391,28 @@ def circ(a: float, b: float) -> float:
     return min(d, 360.0 - d)
 
 
+def flocq_ulp(fr) -> 'Fraction':
+    """ulp radix2 (FLT_exp (-1074) 53) of an exact rational, as in Props/C05.v c05_angle_component_roundtrip."""
+    from fractions import Fraction
+    if fr == 0:
+        return Fraction(1, 2 ** 1074)
+    fr = abs(fr)
+    e = fr.numerator.bit_length() - fr.denominator.bit_length()
+    if Fraction(2) ** e > fr:
+        e -= 1                       # now 2^e <= fr < 2^(e+1)
+    return Fraction(2) ** max(e - 52, -1074)
+
+
+def roundtrip_within_theorem(field: str, before: float, after: float) -> bool:
+    """Conclusion of c05_angle_component_roundtrip evaluated exactly: the slot read back is in [0, 360) and within
+    5e-7 + ulp(decimal)/2 of the printed slot, directly or after the wrap-around 360 -> 0."""
+    from fractions import Fraction
+    dec = Fraction(field)
+    bound = Fraction(5, 10 ** 7) + flocq_ulp(dec) / 2
+    p, q = Fraction(before), Fraction(after)
+    return 0.0 <= after < 360.0 and (abs(q - p) <= bound or abs(q + 360 - p) <= bound)
+
+
 def search_text(ck: Ck) -> None:
     from srctools.math import Angle, FrozenAngle, FrozenVec, Vec, format_float, parse_vec_str
     n = ck.budget(6000, 30000)
@@ -410,11 +444,13 @@ def search_text(ck: Ck) -> None:
                     'vec-str-negative-zero' if 'negative-zero' in probs else 'vec-str-not-plain'
                 found.setdefault(key, (x, f'str({v!r}) == {txt!r}', {'call': 'str', 'cls': cls.__name__, 'xyz': [x.hex(), y.hex(), z.hex()]}))
                 continue
-            for wrap in ('{}', '({})', '[{}]', ' <{}> ', '{{{}}}'):
-                back = cls.from_str(wrap.format(txt), 9e9, 9e9, 9e9)
+            # every bracket style, and (c05_parse_format_vec: ANY non-empty whitespace between the numbers) other separators
+            for wrap, sep in (('{}', ' '), ('({})', ' '), ('[{}]', ' '), (' <{}> ', ' '), ('{{{}}}', ' '), ('{}', '  '), ('({})', '\t'), ('[ {} ]', ' \n')):
+                text = wrap.format(txt.replace(' ', sep))
+                back = cls.from_str(text, 9e9, 9e9, 9e9)
                 if any(abs(a - b) > 5e-7 + math.ulp(b) / 2 for a, b in zip(back, v)):
-                    found.setdefault('vec-from-str-error', (x, f'{cls.__name__}.from_str({wrap.format(txt)!r}) = {back!r} for {v!r}',
-                                                            {'call': 'from_str', 'cls': cls.__name__, 'xyz': [x.hex(), y.hex(), z.hex()], 'wrap': wrap}))
+                    found.setdefault('vec-from-str-error', (x, f'{cls.__name__}.from_str({text!r}) = {back!r} for {v!r}',
+                                                            {'call': 'from_str', 'cls': cls.__name__, 'xyz': [x.hex(), y.hex(), z.hex()], 'wrap': wrap, 'sep': sep}))
             if parse_vec_str(v) != (v.x, v.y, v.z):
                 found.setdefault('parse-vec-str-passthrough', (x, 'parse_vec_str(vec) != components', {'xyz': [x.hex(), y.hex(), z.hex()]}))
         if abs(x) < 1e15:
@@ -428,7 +464,10 @@ def search_text(ck: Ck) -> None:
                     found.setdefault(key, (x, f'str({a!r}) == {txt!r}', {'call': 'str', 'cls': cls.__name__, 'xyz': [x.hex(), y.hex(), z.hex()]}))
                     continue
                 back = cls.from_str(txt, 77, 77, 77)
-                if any(circ(p, q) > 5e-7 + 1e-13 for p, q in zip(back, a)) or not all(0 <= p < 360 for p in back):
+                ck.count('angle_roundtrip_cases')
+                for p, q in zip(a, back):       # which branch of the theorem: read back directly, or 360.0 stored as 0.0
+                    ck.hist('angle_roundtrip_branch', 'wrap-around 360 -> 0' if p - q > 180 else 'direct')
+                if not all(roundtrip_within_theorem(t, p, q) for t, p, q in zip(parts, a, back)):
                     found.setdefault('angle-from-str-error', (x, f'{cls.__name__}.from_str({txt!r}) = {back!r} for {tuple(a)!r}',
                                                               {'call': 'from_str', 'cls': cls.__name__, 'xyz': [x.hex(), y.hex(), z.hex()]}))
     ck.sample({'str(Vec(-1e-9, 0.1, 725.5))': str(Vec(-1e-9, 0.1, 725.5)), 'str(Angle(-1e-14, 725.5, 359.9999997))': str(Angle(-1e-14, 725.5, 359.9999997))})
@@ -1016,23 +1055,44 @@ def search_to_angle(ck: Ck) -> None:
 
 def theorems_with_axioms(ck: Ck, props_file: str = 'Props/C05.v'):
     """Starts the Print Assumptions pass in the background (it only reads the built .vo files and costs ~30 s through
-    Flocq/Reals); the returned function waits for it and records the obligations."""
+    Flocq/Reals); the returned function waits for it and records the obligations.  A background job that could not run
+    (thread or process limits on a loaded machine) is repeated once in the foreground, one coqc at a time."""
     import threading
     box: list = []
-    th = threading.Thread(target=lambda: box.append(_theorems_job(ck, props_file)), daemon=True)
-    th.start()
+    err: list = []
+
+    def job() -> None:
+        try:
+            box.append(_theorems_job(ck, props_file, 4))
+        except BaseException as e:          # noqa: BLE001 - reported below
+            err.append(repr(e))
+    try:
+        th = threading.Thread(target=job, daemon=True)
+        th.start()
+    except RuntimeError as e:
+        th = None
+        err.append(repr(e))
 
     def finish() -> None:
-        th.join()
+        if th is not None:
+            th.join()
+        if not box or any(rc != 0 for rc, _ in box[0][2]):
+            first = err[:] + ([out[-300:] for rc, out in box[0][2] if rc != 0] if box else [])
+            try:
+                box[:] = [_theorems_job(ck, props_file, 1)]
+                ck.extra['print_assumptions_retried'] = first
+            except Exception as e:          # noqa: BLE001
+                err.append(repr(e))
+                box.clear()
         if not box:
-            ck.obligation(f'assumptions:{props_file}', False, 'Print Assumptions job died')
+            ck.obligation(f'assumptions:{props_file}', False, 'Print Assumptions job could not run: ' + '; '.join(err)[:1500])
             ck.tie_broken.append(f'Print Assumptions failed for {props_file}')
             return
         _theorems_record(ck, props_file, *box[0])
     return finish
 
 
-def _theorems_job(ck: Ck, props_file: str):
+def _theorems_job(ck: Ck, props_file: str, workers: int = 4):
     """Print Assumptions walks the whole dependency cone again for every statement (seconds each below Flocq/Reals):
     the statements are dealt round-robin to four coqc processes and the blocks are put back in source order."""
     from concurrent.futures import ThreadPoolExecutor
@@ -1046,8 +1106,11 @@ def _theorems_job(ck: Ck, props_file: str):
             return ck.coq_scratch(body, f'assumptions_full{i}')
         except Exception as e:          # noqa: BLE001 - reported as a failed obligation
             return 1, repr(e)
-    with ThreadPoolExecutor(max_workers=4) as ex:
-        res = list(ex.map(one, range(4)))
+    if workers <= 1:
+        res = [one(i) for i in range(4)]
+    else:
+        with ThreadPoolExecutor(max_workers=workers) as ex:
+            res = list(ex.map(one, range(4)))
     return names, parts, res
 
 
@@ -1096,8 +1159,10 @@ def run(ck: Ck) -> None:
                'stray brackets, 18 kinds of Unicode whitespace and look-alikes, all bracket styles incl. wrong ones), non-trivial = the model '
                'predicts three decimal fields, distinct by text')
     ck.trusted.append('hand-written models Num/Mod360.v (CPython float_rem on binary64), Num/Dec6.v (printf %.6f + rstrip), Num/VecText.v '
-                      '(str.strip/split, bracket removal, plain-decimal reader), SM/FrozenOps.v + SM/FrozenCopy.v (frame, result aliasing) - '
-                      'tied by differential runs on every execution; translate/c05_sites.py; Flocq 4 library')
+                      '(str.strip/split, bracket removal, plain-decimal reader), SM/FrozenOps.v + SM/FrozenCopy.v + SM/FrozenCopyValue.v '
+                      '(frame, result aliasing, slot transfer of copies) - tied by differential runs on every execution; Num/AngleText.v '
+                      'dy_of (proved equal to the (sign, mantissa, exponent) interface of the correspondences); translate/c05_sites.py; '
+                      'Flocq 4 library')
     ck.assumptions += ['operands of % 360 are finite doubles (no overflow to inf/nan inside Angle arithmetic)',
                        'C printf("%.6f") and float() are correctly rounded (IEEE 754 round-half-even); float() of a plain decimal is checked against '
                        'the exactly rounded Fraction on every parse case',
